@@ -15,6 +15,8 @@ import (
 	"regexp"
 	"sort"
 	"strings"
+	"sync"
+	"syscall"
 	"testing"
 	"time"
 
@@ -32,7 +34,7 @@ import (
 type Case struct {
 	Kind string   `json:"kind"`
 	Src  string   `json:"src"`
-	Mode string   `json:"mode"` // file | e | missing | directory | below-file
+	Mode string   `json:"mode"` // file | e | missing | directory | below-file | fifo | dev-stdin | dev-fd
 	Args []string `json:"args"`
 	// Expect: for kind explicit-stdout the standard output is known by construction (the bundled
 	// os.Stdout value cannot be captured in-process: it was bound when the package table was built)
@@ -67,7 +69,8 @@ func pfail(id) {
 
 var argPool = []string{"a", "b c", "", "42", "x=1", "héllo", "*", "'q'", "--", "arg-with-dash"}
 
-func gen(t *rapid.T) Case {
+// genModeArgs draws the way the script is supplied and its trailing arguments
+func genModeArgs(t *rapid.T) Case {
 	c := Case{Mode: rapid.SampledFrom([]string{"file", "file", "e"}).Draw(t, "mode")}
 	n := rapid.IntRange(0, 3).Draw(t, "nargs")
 	for i := 0; i < n; i++ {
@@ -77,6 +80,30 @@ func gen(t *rapid.T) Case {
 		}
 		c.Args = append(c.Args, a)
 	}
+	return c
+}
+
+// kinds whose script may as well be handed over as a file that is not a regular file
+var streamable = map[string]bool{"model-program": true, "mutated-program": true, "wild-program": true, "tiny": true,
+	"scope-builtins": true, "explicit-stdout": true, "other-streams": true, "odd-sources": true,
+	"unfinished-line": true, "reload": true, "own-signal": true}
+
+func isStream(mode string) bool { return mode == "fifo" || mode == "dev-stdin" || mode == "dev-fd" }
+
+// maybeStream: the file argument names something that can be read but is not a regular file - a
+// named pipe, /dev/stdin connected to a pipe (`gen | anko /dev/stdin a b`), /dev/fd/3 connected to a
+// pipe (the shell's `anko <(gen) a b`). Its size is not known before it has been read to its end.
+func maybeStream(t *rapid.T, c *Case, oneIn int) {
+	if c.Mode != "file" || !streamable[c.Kind] || strings.ContainsRune(c.Src, 0) {
+		return
+	}
+	if rapid.IntRange(0, oneIn-1).Draw(t, "stream") == 0 {
+		c.Mode = rapid.SampledFrom([]string{"fifo", "dev-stdin", "dev-fd"}).Draw(t, "streammode")
+	}
+}
+
+func gen(t *rapid.T) Case {
+	c := genModeArgs(t)
 	k := rapid.IntRange(0, 18).Draw(t, "kind")
 	switch {
 	case k == 18:
@@ -172,7 +199,23 @@ func gen(t *rapid.T) Case {
 				exp.WriteString(txt + ";")
 			}
 		}
+		// the script may end with a run error, also right after a write that did not finish its line
+		switch rapid.SampledFrom([]string{"ok", "ok", "ok", "throw", "undefined"}).Draw(t, "end13") {
+		case "throw":
+			src.WriteString("throw \"stop\"\n")
+			c.Fail = true
+		case "undefined":
+			src.WriteString("noSuchFunction()\n")
+			c.Fail = true
+		}
 		c.Src, c.Expect = src.String(), exp.String()
+		if c.Fail {
+			if strings.HasSuffix(c.Expect, "\n") {
+				c.Tags = append(c.Tags, "explicit_fail_after_newline")
+			} else {
+				c.Tags = append(c.Tags, "explicit_fail_midline")
+			}
+		}
 	case k == 14:
 		// a script path that exists in some form but cannot be read as a file
 		c.Kind = "unreadable-file"
@@ -235,6 +278,7 @@ func gen(t *rapid.T) Case {
 	if c.Mode == "e" && (strings.ContainsRune(c.Src, 0) || strings.TrimSpace(c.Src) == "" && c.Src == "") {
 		c.Mode = "file"
 	}
+	maybeStream(t, &c, 7)
 	return c
 }
 
@@ -407,6 +451,446 @@ func genOtherStreams(t *rapid.T, c *Case) {
 	c.Src, c.Expect = src.String(), exp.String()
 }
 
+// ankoQuote spells a text as a double-quoted anko string literal
+func ankoQuote(s string) string {
+	s = strings.ReplaceAll(s, "\\", "\\\\")
+	s = strings.ReplaceAll(s, "\"", "\\\"")
+	s = strings.ReplaceAll(s, "\n", "\\n")
+	return "\"" + s + "\""
+}
+
+// failingEnds: ways a script stops with a run error (name -> statements)
+var failingEnds = map[string]string{
+	"throw":     "throw \"stop\"\n",
+	"undefined": "noSuchFunction()\n",
+	"index":     "v = [1, 2]\nprintln(v[5])\n",
+	"incdec":    "1++\n",
+	"nilcall":   "nx = nil\nnx.y()\n",
+	"loadmiss":  "load(\"@DIR@/no-such-file.ank\")\n",
+}
+
+// genProcess: the second sub-check's cases - scripts whose visible behaviour depends on what the
+// PROCESS around the interpreter does besides running the source: where the cursor stands when the
+// run ends, files the script changes and loads again, signals the script handles itself.
+func genProcess(t *rapid.T) Case {
+	c := genModeArgs(t)
+	switch rapid.IntRange(0, 2).Draw(t, "pkind") {
+	case 0:
+		c.Kind = "unfinished-line"
+		genUnfinishedLine(t, &c)
+	case 1:
+		c.Kind = "reload"
+		genReload(t, &c)
+	default:
+		c.Kind = "own-signal"
+		genOwnSignal(t, &c)
+	}
+	sort.Strings(c.Tags)
+	maybeStream(t, &c, 7)
+	return c
+}
+
+// genUnfinishedLine: a few writes to standard output through the core builtins and the bundled
+// packages, any of which may leave its line unfinished; the script then ends normally or with a run
+// error (at top level, inside a function, inside a block). Standard output is known by construction
+// (what print / printf / println write is Go's fmt by documentation): the texts in order - and, for
+// a failing script, one diagnostic line that starts where the script's output stopped.
+func genUnfinishedLine(t *rapid.T, c *Case) {
+	var src, exp strings.Builder
+	src.WriteString("os = import(\"os\")\nfmt = import(\"fmt\")\n")
+	if rapid.Bool().Draw(t, "lead") {
+		src.WriteString("println(\"start\")\nprintln(len(args))\n")
+		exp.WriteString(fmt.Sprintln("start") + fmt.Sprintln(len(c.Args)))
+	}
+	n := rapid.IntRange(0, 4).Draw(t, "nwrites")
+	write := func(i int, how int) {
+		txt := rapid.SampledFrom([]string{"a", "total: ", "x y", "é", "42", "100%", "tab\t"}).Draw(t, "txt") + fmt.Sprint(i)
+		q := ankoQuote(txt)
+		switch how {
+		case 0:
+			src.WriteString("println(" + q + ")\n")
+			exp.WriteString(fmt.Sprintln(txt))
+		case 1:
+			src.WriteString("print(" + q + ")\n")
+			exp.WriteString(fmt.Sprint(txt))
+		case 2:
+			src.WriteString("print(" + q + ", " + fmt.Sprint(i) + ", " + q + ")\n")
+			exp.WriteString(fmt.Sprint(txt, int64(i), txt))
+		case 3:
+			src.WriteString("printf(\"%s of %d\", " + q + ", " + fmt.Sprint(i) + ")\n")
+			exp.WriteString(fmt.Sprintf("%s of %d", txt, int64(i)))
+		case 4:
+			src.WriteString("printf(\"%v|%v\\n\", " + q + ", " + fmt.Sprint(i) + ")\n")
+			exp.WriteString(fmt.Sprintf("%v|%v\n", txt, int64(i)))
+		case 5:
+			src.WriteString("print(" + ankoQuote(txt+"\n") + ")\n")
+			exp.WriteString(txt + "\n")
+		case 6:
+			src.WriteString("print(" + ankoQuote(txt+"\nmore") + ")\n")
+			exp.WriteString(txt + "\nmore")
+		case 7:
+			src.WriteString("println()\n")
+			exp.WriteString("\n")
+		case 8:
+			src.WriteString("print()\n")
+		case 9:
+			src.WriteString("fmt.Print(" + q + ")\n")
+			exp.WriteString(txt)
+		default:
+			src.WriteString("os.Stdout.WriteString(" + q + ")\n")
+			exp.WriteString(txt)
+		}
+	}
+	for i := 0; i < n; i++ {
+		write(i, rapid.IntRange(0, 10).Draw(t, "how"))
+	}
+	end := rapid.SampledFrom([]string{"throw", "ok", "undefined", "incdec", "index", "nilcall", "loadmiss", "ok"}).Draw(t, "end")
+	where := rapid.SampledFrom([]string{"top", "func", "block", "top"}).Draw(t, "where")
+	// the last write: mostly one that leaves its line unfinished
+	last := rapid.SampledFrom([]int{1, 3, 2, 6, 0, 9, 10, 8, 4}).Draw(t, "lasthow")
+	stop := failingEnds[end]
+	switch where {
+	case "func":
+		src.WriteString("func work(k) {\n")
+		write(n, last)
+		src.WriteString(stop + "return k\n}\nwork(1)\n")
+	case "block":
+		src.WriteString("if len(args) >= 0 {\n")
+		write(n, last)
+		src.WriteString(stop + "}\n")
+	default:
+		write(n, last)
+		src.WriteString(stop)
+	}
+	c.Fail = end != "ok"
+	if c.Fail {
+		src.WriteString("println(\"not reached\")\n")
+	}
+	c.Src, c.Expect = src.String(), exp.String()
+	shape := "midline"
+	if c.Expect == "" {
+		shape = "nothing_printed"
+	} else if strings.HasSuffix(c.Expect, "\n") {
+		shape = "after_newline"
+	}
+	if c.Fail {
+		c.Tags = append(c.Tags, "unfinished_fail_"+shape, "unfinished_fail_in_"+where)
+	} else {
+		c.Tags = append(c.Tags, "unfinished_ok_"+shape)
+	}
+	c.Tags = append(c.Tags, "unfinished_end_"+end)
+}
+
+// genReload: the script writes small anko files into its scratch directory (io/ioutil.WriteFile,
+// os.Create + WriteString, os.OpenFile with O_APPEND, os.Rename), runs them with load(), changes them
+// and runs them again under the same path. load is documented to run the file it is given: every load
+// prints what the file holds at that moment. The generator follows the files' contents, so standard
+// output is known by construction.
+func genReload(t *rapid.T, c *Case) {
+	type file struct {
+		exists bool
+		lines  []string // what running the file prints
+		ver    int      // the value it leaves in its variable
+		fails  bool     // ends with a throw
+		text   string
+		loaded string // the text it had when it was last loaded under this path ("" = never)
+	}
+	paths := []string{"@DIR@/m0.ank", "@DIR@/m1.ank", "@DIR@/inc.ank"}
+	names := []string{"m0", "m1", "inc"}
+	fs := make([]file, 3)
+	var src, exp strings.Builder
+	tag := map[string]bool{}
+	src.WriteString("ioutil = import(\"io/ioutil\")\nos = import(\"os\")\nshared = 7\nver = 0\nprintln(\"start\", len(args))\n")
+	exp.WriteString(fmt.Sprintln("start", len(c.Args)))
+	shared := 7
+	if rapid.Bool().Draw(t, "given") {
+		// a file the script finds when it starts
+		c.Inc = "println(\"inc v0\")\nver = 100\n"
+		fs[2] = file{exists: true, lines: []string{"inc v0"}, ver: 100, text: c.Inc}
+		tag["reload_file_given"] = true
+	}
+	version := 0
+	content := func(i int, failing bool) (string, []string) {
+		version++
+		var b strings.Builder
+		var lines []string
+		b.WriteString(fmt.Sprintf("println(\"%s v%d\")\n", names[i], version))
+		lines = append(lines, fmt.Sprintf("%s v%d", names[i], version))
+		if rapid.Bool().Draw(t, "seesshared") {
+			b.WriteString("println(\"sees\", shared)\n")
+			lines = append(lines, "sees @SHARED@")
+		}
+		b.WriteString(fmt.Sprintf("ver = %d\n", version))
+		if failing {
+			b.WriteString(fmt.Sprintf("throw \"%s v%d stops\"\n", names[i], version))
+		}
+		return b.String(), lines
+	}
+	pick := func(label string, need func(f file) bool) int {
+		var ok []int
+		for _, i := range []int{0, 0, 1, 2} { // mostly the same file
+			if need(fs[i]) {
+				ok = append(ok, i)
+			}
+		}
+		if len(ok) == 0 {
+			return -1
+		}
+		return rapid.SampledFrom(ok).Draw(t, label)
+	}
+	failed := false
+	doWrite := func(i int, failing bool) {
+		txt, lines := content(i, failing)
+		if rapid.Bool().Draw(t, "viacreate") {
+			src.WriteString(fmt.Sprintf("wf, werr = os.Create(\"%s\")\nwf.WriteString(%s)\nwf.Close()\n", paths[i], ankoQuote(txt)))
+			tag["reload_write_os_create"] = true
+		} else {
+			src.WriteString(fmt.Sprintf("ioutil.WriteFile(\"%s\", toByteSlice(%s), 420)\n", paths[i], ankoQuote(txt)))
+			tag["reload_write_ioutil"] = true
+		}
+		fs[i].exists, fs[i].lines, fs[i].ver, fs[i].fails, fs[i].text = true, lines, version, failing, txt
+	}
+	doLoad := func(i int) {
+		if rapid.IntRange(0, 3).Draw(t, "viavar") == 0 {
+			src.WriteString(fmt.Sprintf("pa = \"%s\"\nload(pa)\n", paths[i]))
+		} else {
+			src.WriteString(fmt.Sprintf("load(\"%s\")\n", paths[i]))
+		}
+		for _, l := range fs[i].lines {
+			exp.WriteString(strings.ReplaceAll(l, "@SHARED@", fmt.Sprint(shared)) + "\n")
+		}
+		switch {
+		case fs[i].loaded == "":
+			tag["reload_first_load_of_path"] = true
+		case fs[i].loaded == fs[i].text:
+			tag["reload_same_text_again"] = true
+		default:
+			tag["reload_changed_between_loads"] = true
+			if fs[i].fails {
+				tag["reload_changed_to_failing"] = true
+			}
+		}
+		fs[i].loaded = fs[i].text
+		if fs[i].fails {
+			failed = true
+			return
+		}
+		src.WriteString("println(\"now\", ver)\n")
+		exp.WriteString(fmt.Sprintln("now", fs[i].ver))
+	}
+	// (listed by weight: rapid prefers the front of a list and the low end of a range)
+	if first := pick("first", func(file) bool { return true }); !fs[first].exists || rapid.Bool().Draw(t, "firstwrite") {
+		doWrite(first, false)
+		doLoad(first)
+	} else {
+		doLoad(first)
+	}
+	n := 9 - rapid.IntRange(1, 7).Draw(t, "nsteps")
+	for s := 0; s < n && !failed; s++ {
+		switch rapid.SampledFrom([]string{"again", "load", "write", "append", "again", "rename", "bump", "load", "write"}).Draw(t, "step") {
+		case "write":
+			i := pick("wfile", func(file) bool { return true })
+			doWrite(i, fs[i].loaded != "" && rapid.IntRange(0, 5).Draw(t, "failing") == 0)
+		case "again":
+			// a path that was loaded before gets a new text and is loaded again
+			i := pick("gfile", func(f file) bool { return f.loaded != "" })
+			if i < 0 {
+				continue
+			}
+			doWrite(i, rapid.IntRange(0, 3).Draw(t, "failing") == 0)
+			doLoad(i)
+		case "append":
+			i := pick("afile", func(f file) bool { return f.exists && !f.fails })
+			if i < 0 {
+				continue
+			}
+			line := fmt.Sprintf("%s more %d", names[i], s)
+			add := "println(\"" + line + "\")\n"
+			src.WriteString(fmt.Sprintf("af, aerr = os.OpenFile(\"%s\", os.O_APPEND + os.O_WRONLY, 420)\naf.WriteString(%s)\naf.Close()\n", paths[i], ankoQuote(add)))
+			fs[i].lines = append(append([]string{}, fs[i].lines...), line)
+			fs[i].text += add
+			tag["reload_append"] = true
+		case "rename":
+			i := pick("rfile", func(f file) bool { return f.exists })
+			if i < 0 {
+				continue
+			}
+			j := (i + 1 + rapid.IntRange(0, 1).Draw(t, "rto")) % 3
+			src.WriteString(fmt.Sprintf("os.Rename(\"%s\", \"%s\")\n", paths[i], paths[j]))
+			keep := fs[j].loaded
+			gone := fs[i].loaded
+			fs[j] = fs[i]
+			fs[j].loaded = keep
+			fs[i] = file{loaded: gone}
+			tag["reload_rename"] = true
+		case "bump":
+			shared++
+			src.WriteString("shared++\n")
+		default:
+			i := pick("lfile", func(f file) bool { return f.exists })
+			if i < 0 {
+				continue
+			}
+			doLoad(i)
+		}
+	}
+	if failed {
+		c.Fail = true
+		src.WriteString("println(\"not reached\")\n")
+		tag["reload_end_loaded_file_throws"] = true
+	} else {
+		src.WriteString("println(\"last\")\n")
+		exp.WriteString("last\n")
+		if rapid.IntRange(0, 3).Draw(t, "endthrow") == 0 {
+			src.WriteString("throw \"stop\"\n")
+			c.Fail = true
+			tag["reload_end_throw"] = true
+		} else {
+			tag["reload_end_ok"] = true
+		}
+	}
+	for k := range tag {
+		c.Tags = append(c.Tags, k)
+	}
+	c.Src, c.Expect = src.String(), exp.String()
+}
+
+// genOwnSignal: the script installs its own handler for the interrupt signal (signal.Notify of the
+// bundled os/signal package on a buffered channel), sends that signal to its own process
+// (os.FindProcess(os.Getpid()).Signal), receives it from its channel and carries on - more work,
+// more prints, possibly more rounds. Go documents that a signal for which Notify was called is
+// relayed to the channel instead of ending the process, so the script runs to its end and its
+// standard output is known by construction. (One signal is sent and received at a time: pending
+// signals of the same number are merged by the kernel.)
+func genOwnSignal(t *rapid.T, c *Case) {
+	var src, exp strings.Builder
+	src.WriteString("os = import(\"os\")\nsignal = import(\"os/signal\")\ntime = import(\"time\")\nprintln(\"start\", len(args))\n")
+	exp.WriteString(fmt.Sprintln("start", len(c.Args)))
+	src.WriteString(fmt.Sprintf("sigs = make(chan os.Signal, %d)\nsignal.Notify(sigs, os.Interrupt)\nme, ferr = os.FindProcess(os.Getpid())\n", rapid.IntRange(1, 4).Draw(t, "cap")))
+	rounds := rapid.IntRange(1, 3).Draw(t, "rounds")
+	for r := 0; r < rounds; r++ {
+		src.WriteString(fmt.Sprintf("println(\"round\", %d)\nme.Signal(os.Interrupt)\ngot = <-sigs\nprintln(\"caught\", got)\n", r))
+		exp.WriteString(fmt.Sprintln("round", r) + fmt.Sprintln("caught", os.Interrupt))
+		switch rapid.SampledFrom([]string{"loop", "sleep", "loop", "prints"}).Draw(t, "work") {
+		case "sleep":
+			ms := rapid.SampledFrom([]int{2, 5, 20}).Draw(t, "ms")
+			src.WriteString(fmt.Sprintf("time.Sleep(%d * time.Millisecond)\n", ms))
+			c.Tags = append(c.Tags, "signal_then_sleep")
+		case "loop":
+			k := rapid.SampledFrom([]int{3000, 20000, 60000}).Draw(t, "iters")
+			src.WriteString(fmt.Sprintf("n = 0\nfor i = 0; i < %d; i++ {\n  n += i\n}\nprintln(n)\n", k))
+			exp.WriteString(fmt.Sprintln(int64(k) * int64(k-1) / 2))
+			c.Tags = append(c.Tags, "signal_then_loop")
+		default:
+			for i := 0; i < 5; i++ {
+				src.WriteString(fmt.Sprintf("println(\"w\", %d)\n", i))
+				exp.WriteString(fmt.Sprintln("w", i))
+			}
+			c.Tags = append(c.Tags, "signal_then_prints")
+		}
+		src.WriteString(fmt.Sprintf("println(\"worked\", %d)\n", r))
+		exp.WriteString(fmt.Sprintln("worked", r))
+	}
+	if rapid.Bool().Draw(t, "stop") {
+		src.WriteString("signal.Stop(sigs)\n")
+		c.Tags = append(c.Tags, "signal_stop_at_end")
+	}
+	src.WriteString("println(\"last\")\n")
+	exp.WriteString("last\n")
+	end := rapid.SampledFrom([]string{"ok", "ok", "throw", "undefined"}).Draw(t, "end")
+	if end != "ok" {
+		src.WriteString(failingEnds[end] + "println(\"not reached\")\n")
+		c.Fail = true
+	}
+	c.Tags = append(c.Tags, fmt.Sprintf("signal_rounds_%d", rounds), "signal_end_"+end)
+	// (labels may repeat over the rounds)
+	sort.Strings(c.Tags)
+	out := c.Tags[:0]
+	for i, tg := range c.Tags {
+		if i == 0 || tg != c.Tags[i-1] {
+			out = append(out, tg)
+		}
+	}
+	c.Tags = out
+	c.Src, c.Expect = src.String(), exp.String()
+}
+
+// supplied: how one case's script reaches the command
+type supplied struct {
+	argv  []string
+	stdin *os.File   // the command's standard input (nil: an empty one)
+	extra []*os.File // descriptors 3.. of the command
+	after func()     // to be called when the command has finished
+}
+
+// supply hands the script over in the case's mode. A regular file s.ank is written in every mode.
+// For the modes that are not a regular file a goroutine plays the other end: it writes the source and
+// closes, whatever the command does with its end; after() lets it go and waits for it.
+func supply(dir, src, mode string, args []string) (supplied, error) {
+	f := filepath.Join(dir, "s.ank")
+	os.WriteFile(f, []byte(src), 0o644)
+	var s supplied
+	s.after = func() {}
+	var wg sync.WaitGroup
+	feed := func(w *os.File) {
+		wg.Add(1)
+		go func() {
+			defer wg.Done()
+			w.WriteString(src)
+			w.Close()
+		}()
+	}
+	switch mode {
+	case "e":
+		s.argv = append([]string{"-e", src}, args...)
+	case "fifo":
+		p := filepath.Join(dir, "s.fifo")
+		if err := syscall.Mkfifo(p, 0o600); err != nil {
+			return s, err
+		}
+		wg.Add(1)
+		go func() {
+			defer wg.Done()
+			w, err := os.OpenFile(p, os.O_WRONLY, 0) // waits for the reader
+			if err != nil {
+				return
+			}
+			w.WriteString(src)
+			w.Close()
+		}()
+		s.argv = append([]string{p}, args...)
+		s.after = func() {
+			// if nobody ever opened the pipe for reading the writer is still waiting
+			if fd, err := syscall.Open(p, syscall.O_RDONLY|syscall.O_NONBLOCK, 0); err == nil {
+				wg.Wait()
+				syscall.Close(fd)
+			} else {
+				wg.Wait()
+			}
+		}
+	case "dev-stdin", "dev-fd":
+		r, w, err := os.Pipe()
+		if err != nil {
+			return s, err
+		}
+		feed(w)
+		if mode == "dev-stdin" {
+			s.stdin = r
+			s.argv = append([]string{"/dev/stdin"}, args...)
+		} else {
+			s.extra = []*os.File{r}
+			s.argv = append([]string{"/dev/fd/3"}, args...)
+		}
+		s.after = func() {
+			r.Close() // a writer that is still writing gets an error instead of waiting
+			wg.Wait()
+		}
+	default:
+		s.argv = append([]string{f}, args...)
+	}
+	return s, nil
+}
+
 func ankoBinary() string {
 	return filepath.Join(filepath.Dir(os.Getenv("VERIF_SCRATCH")), "anko")
 }
@@ -524,6 +1008,8 @@ func oracle(c Case, o *h.Obs) *h.Fail {
 		os.WriteFile(filepath.Join(dir, "inc.ank"), []byte(c.Inc), 0o644)
 	}
 	cmdDir := ""
+	sup := supplied{after: func() {}}
+	byConstruction := c.Kind == "explicit-stdout" || c.Kind == "other-streams" || c.Kind == "unfinished-line" || c.Kind == "reload" || c.Kind == "own-signal"
 	if c.Kind == "relative-file" {
 		os.Mkdir(filepath.Join(dir, "sub"), 0o755)
 		os.WriteFile(filepath.Join(dir, "sub", "s.ank"), []byte(src), 0o644)
@@ -534,14 +1020,7 @@ func oracle(c Case, o *h.Obs) *h.Fail {
 			real = dir
 		}
 		want = inproc{out: strings.ReplaceAll(c.Expect, "@DIR@", real)}
-	} else if c.Kind == "explicit-stdout" || c.Kind == "other-streams" {
-		f := filepath.Join(dir, "s.ank")
-		os.WriteFile(f, []byte(src), 0o644)
-		if c.Mode == "e" {
-			argv = append([]string{"-e", src}, c.Args...)
-		} else {
-			argv = append([]string{f}, c.Args...)
-		}
+	} else if byConstruction {
 		want = inproc{out: c.Expect}
 		if c.Fail {
 			want.err = errors.New("the script ends with a run error by construction")
@@ -561,17 +1040,13 @@ func oracle(c Case, o *h.Obs) *h.Fail {
 		case "missing":
 			argv = append([]string{filepath.Join(dir, "does-not-exist.ank")}, c.Args...)
 			wantCode = 2
-		case "file":
-			f := filepath.Join(dir, "s.ank")
-			os.WriteFile(f, []byte(src), 0o644)
-			argv = append([]string{f}, c.Args...)
+		case "file", "fifo", "dev-stdin", "dev-fd":
 			want = runInProcess(src, c.Args)
 		default:
 			if c.Src == "" {
 				o.Excluded = "-e with an empty source starts the interactive mode"
 				return nil
 			}
-			argv = append([]string{"-e", src}, c.Args...)
 			want = runInProcess(src, c.Args)
 		}
 	}
@@ -586,15 +1061,34 @@ func oracle(c Case, o *h.Obs) *h.Fail {
 	if wantCode != 2 && want.err != nil {
 		wantCode = 4
 	}
+	if argv == nil {
+		// (the in-process run may have changed the files the script works on)
+		if c.Inc != "" {
+			os.WriteFile(filepath.Join(dir, "inc.ank"), []byte(c.Inc), 0o644)
+		}
+		sup, err = supply(dir, src, c.Mode, c.Args)
+		if err != nil {
+			sup.after()
+			o.Excluded = "cannot hand the script over in mode " + c.Mode + ": " + err.Error()
+			return nil
+		}
+		argv = sup.argv
+	}
 
 	ctx, cancel := context.WithTimeout(context.Background(), 20*time.Second)
 	defer cancel()
 	cmd := exec.CommandContext(ctx, bin, argv...)
-	cmd.Stdin = strings.NewReader("")
+	if sup.stdin != nil {
+		cmd.Stdin = sup.stdin
+	} else {
+		cmd.Stdin = strings.NewReader("")
+	}
+	cmd.ExtraFiles = sup.extra
 	cmd.Dir = cmdDir
 	var stdout, stderr bytes.Buffer
 	cmd.Stdout, cmd.Stderr = &stdout, &stderr
 	runErr := cmd.Run()
+	sup.after()
 	if ctx.Err() != nil {
 		return h.Failf("C18|cli-hangs|"+c.Kind, "the command did not finish within 20 s although the library finishes\nargv: %q\nsource:\n%s", argv, c.Src)
 	}
@@ -612,11 +1106,25 @@ func oracle(c Case, o *h.Obs) *h.Fail {
 	o.NonTrivial = lines >= 2 && (want.err != nil || len(c.Args) > 0 || strings.Contains(c.Src, "import("))
 	o.Class(fmt.Sprintf("exit_%d", wantCode))
 	detail := fmt.Sprintf("argv: %q\nexit status %d (want %d)\nstdout: %q\nlibrary error: %v\nlibrary output: %q\nsource:\n%s", argv, code, wantCode, got, want.err, want.out, src)
-	if code != wantCode {
-		return h.Failf(fmt.Sprintf("C18|exit-status|%s|want%d|got%d", c.Mode, wantCode, code), "%s", detail)
-	}
-	// clauses about scripts that also write elsewhere get signatures of their own
+	// clauses about the kinds added later get signatures of their own
 	ks := ""
+	if c.Kind == "unfinished-line" || c.Kind == "reload" || c.Kind == "own-signal" {
+		ks = "|" + c.Kind
+	}
+	if isStream(c.Mode) {
+		// The file argument names a pipe. The statement has two outcomes for a file argument: the file
+		// cannot be read (2, one diagnostic line, nothing of the script runs), or its text is the source.
+		// A command that declines to read anything but regular files is taken to be within the first;
+		// what it may not do is to run something that is not the text the pipe delivers.
+		if code == 2 && wantCode != 2 && strings.Count(got, "\n") == 1 && strings.HasSuffix(got, "\n") && strings.TrimSpace(got) != "" {
+			o.Class("stream_file_refused")
+			return nil
+		}
+		o.Class("stream_file_read_as_source")
+	}
+	if code != wantCode {
+		return h.Failf(fmt.Sprintf("C18|exit-status|%s|want%d|got%d%s", c.Mode, wantCode, code, ks), "%s", detail)
+	}
 	if c.Kind == "other-streams" {
 		ks = "|other-streams"
 		for _, nv := range c.Never {
@@ -660,4 +1168,6 @@ func TestC18(t *testing.T) {
 	defer c.Finish()
 	c.Rule("scripts: programs from the model generator (scopes/control/errors profiles) whose probes are written in anko on top of println, optionally echoing args / using bundled packages; mutated programs (truncated, span deleted, token inserted: mostly parse errors); full-grammar programs after the value-universe prelude (mostly run-time errors; no loops, no goroutines); tiny scripts; a missing file; scripts that between their prints write to standard error, log through the bundled log package (standard logger with its prefix / flags / output re-configured, loggers of their own) and end normally or with a run error, standard output given by construction. Supplied as a file with 0-3 trailing arguments or with -e. non-trivial = the script prints >= 2 lines and (fails, or has arguments, or imports a package); distinct by (mode, args, source)")
 	h.Run(c, "cli", c.N(1500, 12000), gen, oracle)
+	c.Rule("cli-process: scripts whose visible behaviour depends on what the process around the interpreter does besides running the source - (unfinished-line) writes through print / printf / println / fmt.Print / os.Stdout that may leave the last line unfinished, then a normal end or a run error at top level, in a function or in a block; (reload) anko files written, appended to, renamed and re-written by the script and run with load() again under the same path; (own-signal) signal.Notify for the interrupt signal, the signal sent to the script's own process, received from the channel, followed by more work. Standard output and verdict are given by construction. In both sub-checks one file-mode case in seven hands the script over as a named pipe, as /dev/stdin or as /dev/fd/3 connected to a pipe")
+	h.Run(c, "cli-process", c.N(240, 1920), genProcess, oracle)
 }
